@@ -97,6 +97,7 @@ type Explorer struct {
 	Probes      int
 	Landed      map[int]int // target -> transitions whose measured buffer landed exactly there
 	Missed      int
+	Unreachable int // targets no write size reaches exactly from the state (skipped)
 	States      int
 	Transitions int
 	Stop        func() bool // non-nil: polled between sub-trees; true aborts (reported by the caller)
@@ -139,24 +140,83 @@ func landing(r *Result) (int, bool) {
 	return last.Wire1 - last.Wire0 + last.Buffered, true
 }
 
-// writeOverhead measures, by a probe run, how many bytes besides the data itself take part in
-// the threshold comparison when n.Prog is extended by one Write.
-func (x *Explorer) writeOverhead(n *Node) (int, bool) {
+// probeWrite runs n.Prog extended by Write(sz) and returns the measured landing size.
+func (x *Explorer) probeWrite(n *Node, sz int) (l int, chunked bool, ok bool) {
+	x.Probes++
+	r := x.run(appendOp(n.Prog, succ{op: Op{K: OpW, N: sz}}))
+	l, ok = landing(r)
+	r.Release(x.Env)
+	if !ok || r.Ops[len(r.Ops)-1].Err != "" {
+		return 0, false, false
+	}
+	return l, r.Ops[len(r.Ops)-1].Chunked, true
+}
+
+// targetSizes computes, from probe runs of this very history, the write sizes that make the
+// measured internal buffer land exactly on each target. Nothing about the head length or the
+// framing overhead is assumed: two probes give the offset and the slope of "landing size as a
+// function of write size" (the slope is 1 unless the writer duplicates or drops bytes), and a
+// size whose chunk-size field has fewer hex digits than the probes' is verified and corrected
+// by further probes. Targets that cannot be reached exactly are skipped.
+func (x *Explorer) targetSizes(n *Node, targets []int) map[int]int {
+	out := map[int]int{}
 	s0 := 60000
-	if rem := n.Model.Remaining(); rem >= 0 && rem < s0 {
+	rem := n.Model.Remaining()
+	if rem >= 0 && rem < s0 {
 		s0 = rem
 	}
 	if s0 <= 0 {
-		return 0, false
+		return out
 	}
-	x.Probes++
-	r := x.run(appendOp(n.Prog, succ{op: Op{K: OpW, N: s0}}))
-	l, ok := landing(r)
-	r.Release(x.Env)
-	if !ok || r.Ops[len(r.Ops)-1].Err != "" {
-		return 0, false
+	l0, chunked, ok := x.probeWrite(n, s0)
+	if !ok {
+		return out
 	}
-	return l - s0, true
+	k := 1
+	if s0 >= 20000 {
+		s1 := s0 - 10000
+		if l1, _, ok := x.probeWrite(n, s1); ok && l0-l1 != s0-s1 {
+			if (l0-l1)%(s0-s1) != 0 || (l0-l1)/(s0-s1) < 1 {
+				return out
+			}
+			k = (l0 - l1) / (s0 - s1)
+		}
+	}
+	for _, t := range targets {
+		d := t - l0
+		if d%k != 0 {
+			x.Unreachable++
+			continue
+		}
+		sz := s0 + d/k
+		if sz < 1 || (rem >= 0 && sz > rem) {
+			continue
+		}
+		if chunked && sz < 4096 {
+			// fewer hex digits in the chunk-size field than the probe had: measure again
+			good := false
+			for try := 0; try < 3 && sz >= 1 && (rem < 0 || sz <= rem); try++ {
+				l, _, ok := x.probeWrite(n, sz)
+				if !ok {
+					break
+				}
+				if l == t {
+					good = true
+					break
+				}
+				if (t-l)%k != 0 {
+					break
+				}
+				sz += (t - l) / k
+			}
+			if !good {
+				x.Unreachable++
+				continue
+			}
+		}
+		out[t] = sz
+	}
+	return out
 }
 
 // headLen measures, by a probe run, the length of the response head when a five-digit
@@ -259,11 +319,10 @@ func (x *Explorer) successors(n *Node) []succ {
 		}
 	}
 	if no204() {
-		if c, ok := x.writeOverhead(n); ok {
-			for _, t := range cfg.Targets {
-				if v := t - c; v > 0 {
-					addW(v, fmt.Sprintf("T%d", t), contains(cfg.WSTargets, t))
-				}
+		ts := x.targetSizes(n, cfg.Targets)
+		for _, t := range cfg.Targets {
+			if v, ok := ts[t]; ok {
+				addW(v, fmt.Sprintf("T%d", t), contains(cfg.WSTargets, t))
 			}
 		}
 		if rem > 0 {
